@@ -50,13 +50,16 @@ def parseInstrText (s : Str) : Option (Op × Option Modifier × Mode × Int × M
   | _, _, _ => none
 
 /-- read a listing / load file: blank and comment lines ignored; `ORG n|START`, `END [n|START]`;
-    an optional `START` label in front of an instruction -/
+    an optional `START` label in front of an instruction. As in pMARS a `START` label is only a
+    symbol: it gives the entry point when an `ORG START` / `END START` refers to it; without any
+    directive the entry point is the first instruction. -/
 def readText (text : Str) : Option TextWarrior :=
   let lines := (readLines text).map (fun l => trimSpace (stripComment l)) |>.filter (!·.isEmpty)
   let rec go (ls : List Str) (code : List (Op × Option Modifier × Mode × Int × Mode × Int))
-      (start : Option Nat) (label : Option Nat) : Option TextWarrior :=
+      (start : Option Nat) (label : Option Nat) (ref : Bool) : Option TextWarrior :=
     match ls with
-    | [] => some { code := code.reverse, start := (start.orElse (fun _ => label)).getD 0 }
+    | [] => some { code := code.reverse,
+                   start := if ref then (label.orElse (fun _ => start)).getD 0 else start.getD 0 }
     | l :: rest =>
       let fs := fields l
       match fs with
@@ -65,22 +68,24 @@ def readText (text : Str) : Option TextWarrior :=
           let isEnd := toLower d == "end".toList
           if toLower arg == "start".toList then
             if isEnd then some { code := code.reverse, start := (label.orElse (fun _ => start)).getD 0 }
-            else go rest code start label
+            else go rest code start label true
           else match parseSigned arg with
             | some (Int.ofNat n) =>
-              if isEnd then some { code := code.reverse, start := n } else go rest code (some n) label
+              if isEnd then some { code := code.reverse, start := n } else go rest code (some n) label false
             | _ => none
         else none
       | [d] =>
-        if toLower d == "end".toList then some { code := code.reverse, start := (start.orElse (fun _ => label)).getD 0 }
+        if toLower d == "end".toList then
+          some { code := code.reverse,
+                 start := if ref then (label.orElse (fun _ => start)).getD 0 else start.getD 0 }
         else none
       | _ =>
         let (lbl, body) :=
           if (fs.head?.map toLower) == some "start".toList then (true, (trimLeft l).drop 5) else (false, l)
         match parseInstrText body with
-        | some i => go rest (i :: code) start (if lbl then some code.length else label)
+        | some i => go rest (i :: code) start (if lbl then some code.length else label) ref
         | none => none
-  go lines [] none none
+  go lines [] none none false
 
 /-- number of significant (non-blank, non-comment) lines before the end marker that are not
     ORG/END directives; the Bool tells whether an end marker was met -/
